@@ -1,6 +1,7 @@
 //! pcmon: runtime monitors for ark-poly-commit (see /verif/DESIGN.md).
 #![allow(clippy::too_many_arguments, clippy::type_complexity)]
 
+mod ipa_ref;
 mod ju;
 mod mirror;
 mod oracle;
